@@ -277,6 +277,9 @@ func (x *Exec) applyContract(st *State, ct *Contract, sig *types.Signature, name
 				x.havocLoc(st, loc)
 			}
 		}
+		for _, h := range ct.ModHeaps {
+			x.havocHeapKind(st, h)
+		}
 	}
 	// results
 	res := sig.Results()
@@ -899,5 +902,32 @@ func (x *Exec) userAsserts(st *State, fr *Frame, cn callName, after bool) {
 		}
 		g := x.evalBool(ctx, a.E)
 		x.check(st, fmt.Sprintf("assert:%s#%d.%d", cn.name, cn.ord, i+1), "", nil, g, a.E.String())
+	}
+}
+
+// havocHeapKind makes a whole component heap (and the heaps derived from it, "H_sl" = all four
+// slice-header heaps) unconstrained.
+func (x *Exec) havocHeapKind(st *State, h string) {
+	var names []string
+	for n := range x.heapSorts {
+		if n == h || strings.HasPrefix(n, h+"#") {
+			names = append(names, n)
+		}
+	}
+	if _, ok := x.heapSorts[h]; !ok && !strings.Contains(h, "#") {
+		// not touched yet: make sure it exists so that later reads see the havocked version
+		switch {
+		case strings.HasPrefix(h, "H_"):
+			es := SInt
+			if h == "H_bool" {
+				es = SBool
+			}
+			x.heapSorts[h] = SArr(SInt, SArr(SInt, es))
+			names = append(names, h)
+		}
+	}
+	sort.Strings(names)
+	for _, n := range names {
+		st.setHeap(n, x.b.Fresh(n+"@asm", x.heapSorts[n]), nil)
 	}
 }
